@@ -102,6 +102,10 @@ pub trait Property: Sync {
     fn repair(&self, _sc: &mut Scenario) -> bool {
         true
     }
+    /// re-run one RealWorld case from a replay file (world = "real")
+    fn replay_real(&self, _sc: &Scenario) -> Option<Violation> {
+        None
+    }
     /// extra phases after the seeded search (e.g. RealWorld slice); may add counters
     fn post(&self, _tier: Tier, _seed: u64, _stats: &mut Stats) -> Option<(Scenario, Violation)> {
         None
